@@ -267,6 +267,31 @@ def c02_oracle(full, io, b):
             if pct_bytes(dec(a)) != pct_bytes(dec(c)):
                 out.append(fail(vv, h, comp, f"{f[3]} changed the decoded bytes of {comp}: {dec(a)!r} -> {dec(c)!r}", "modifier-changes-bytes", also=[vv.n_of(src, comp)]))
                 break
+    # URL level: the component a decoded-text modifier TARGETS decodes to exactly the UTF-8 bytes of the supplied text (the
+    # argument is decoded text: a '%' in it is data, whatever the URL held before)
+    tcomp = {"with_fragment": "raw_fragment", "with_user": "raw_user", "with_password": "raw_password", "with_name": "raw_path"}
+    for h, n in enumerate(vv.cr):
+        f = full[n].split("\t")
+        if f[0] != "mod" or f[3] not in tcomp or not vv.alive(h) or len(f) < 5 or f[4] == "~":
+            continue
+        try:
+            arg = dec(f[4])
+        except Exception:
+            continue
+        if not no_surr_a(arg):
+            continue
+        got = vv.get(h, tcomp[f[3]])
+        if got is None or got.startswith("!") or got == "~":
+            continue
+        got = dec(got)
+        if f[3] == "with_name":
+            if "/" in arg or arg in ("", ".", ".."):
+                continue
+            got = got.rpartition("/")[2]
+        if f[3] == "with_user" and arg == "":
+            continue
+        if pct_bytes(got) != arg.encode("utf-8"):
+            out.append(fail(vv, h, tcomp[f[3]], f"{f[3]}({arg!r}) stored {got!r}, which decodes to {pct_bytes(got)!r}: not the bytes of the supplied text", "modifier-target-bytes"))
     # URL level: join must only splice encoded segments (every result segment decodes to a base or reference segment)
     v = View(full, io)
     for h, n in enumerate(v.cr):
@@ -319,6 +344,17 @@ def c02_streams(rng, tier, budget):
                              ("with_path", [enc("/z"), "F", "T", "T"]), ("with_name", [enc("n"), "T", "T"]), ("truediv", [enc("c")]),
                              ("extend_query", ["S" + enc("z=1")]), ("update_query", ["P" + enc("zz") + "=s" + enc("1")])):
                 st3.obs_all(st3.mod(h, nm, *args), C02_OBS)
+    # "set it to what it reads": the argument is the DECODED reading of the component the base already has.  For text with escapes
+    # the decoder keeps verbatim (undecodable / malformed), decoded == raw, but the supplied text is decoded text: its '%' must be
+    # escaped — a modifier that compares its argument with the decoded accessor and returns the URL unchanged gets this wrong
+    for t in ["%FF", "a%E2%82", "%C3", "%ED%A0%80", "%zz", "%", "%2", "x%C3%28", "%25FF", "%41", "a b"]:
+        h = st3.new("http://%s:%s@h/d/%s?%s=%s#%s" % (t, t, t, t, t, t))
+        st3.obs_all(h, C02_OBS)
+        for nm, args in (("with_fragment", [enc(t)]), ("with_user", [enc(t)]), ("with_password", [enc(t)]), ("with_name", [enc(t), "T", "T"]),
+                         ("with_path", [enc("/d/" + t), "F", "T", "T"]), ("with_query", ["P" + enc(t) + "=s" + enc(t)]), ("update_query", ["P" + enc(t) + "=s" + enc(t)])):
+            m = st3.mod(h, nm, *args)
+            st3.obs_all(m, C02_OBS)
+            st3.obs_all(st3.mod(m, nm, *args), C02_OBS)          # and once more on the result
     yield "modifier-preserves-bytes", st3
     n = int((200 if tier == "quick" else 3000) * budget)
     yield "urls", general_stream(rng, n, C02_OBS, enc_frac=0.0)
@@ -500,7 +536,7 @@ def canon_url(rng):
     # rooted dot-free path (non-empty when query/fragment follows is not required by yarl: '' renders as '/')
     segs = []
     for _ in range(rng.randint(0, 4)):
-        sg = canon_text(rng, LIT_PATH, "/", 6)
+        sg = canon_text(rng, LIT_PATH, "/+", 6)          # '%2F' and '%2B' are the path's "may be escaped" delimiters ('+' because of its form-encoding reading)
         if sg in (".", ".."):
             sg = "x"
         segs.append(sg)
@@ -588,6 +624,10 @@ def c04_streams(rng, tier, budget):
         e = pct_utf8(c)
         for t in ("http://h/a%sb", "http://h/?a%sb", "http://h/#a%sb", "http://a%sb@h/"):
             st.obs_all(st.new(t % e), ["str"])
+    # the "may be escaped" delimiters of each component, escaped, singly: an escape that the component may carry is not decoded
+    for t, cs in (("http://h/a%sb", "/+"), ("http://h/a%sb/c", "/+"), ("http://a%sb@h/", ":@/?"), ("http://u:a%sb@h/", ":@/?"), ("http://h/?a%sb=c", "&=+;"), ("http://h/?k=a%sb", "&=+;")):
+        for c in cs:
+            st.obs_all(st.new(t % pct_utf8(c)), ["str"])
     # every canonical host shape, including registered names that LOOK like IPvFuture / IPv4 / hex groups, in every authority context
     hosts = [h for h in urlgen.REGNAMES if h == h.lower() and "%" not in h] + urlgen.IPV4 + ["[::1]", "[2001:db8::1]", "[fe80::1%eth0]", "[::ffff:102:304]"]
     for h in hosts:
